@@ -259,12 +259,41 @@ var illegalKinds = []string{"config-true-under-false", "config-true-under-false-
 	"current-uses-deprecated-grouping", "current-type-obsolete-typedef", "deprecated-type-obsolete-typedef", "current-iffeature-deprecated-feature", "current-base-deprecated-identity",
 	"deviate-add-existing", "deviate-delete-missing", "deviate-delete-wrong-value", "deviate-replace-missing", "not-supported-plus-other", "deviate-add-not-allowed", "deviate-unknown-target"}
 
-func leaf(name string) *sg.Node { return &sg.Node{Kind: "leaf", Name: name, Type: &sg.TypeSpec{Name: "string"}} }
+func leaf(name string) *sg.Node {
+	return &sg.Node{Kind: "leaf", Name: name, Type: &sg.TypeSpec{Name: "string"}}
+}
 
-func buildIllegal(kind string, legal bool) []*sg.Mod {
+func buildIllegal(kind string, sub int, legal bool) []*sg.Mod {
+	// sub drives the variation: where the construction sits, how references are spelled, the order of deviates
+	v := func(n int) int { r := sub % n; sub /= n; return r }
 	m := &sg.Mod{Name: "m0", Prefix: "m0"}
-	top := &sg.Node{Kind: "container", Name: "m0-top"}
-	m.Nodes = []*sg.Node{top}
+	root := &sg.Node{Kind: "container", Name: "m0-top"}
+	m.Nodes = []*sg.Node{root}
+	// the subject container "top" sits 0-2 levels below the top-level container, through a container, a list or a choice/case
+	top := root
+	tpath := "/m0:m0-top"
+	for lv := v(3); lv > 0; lv-- {
+		name := fmt.Sprintf("w%d", lv)
+		inner := &sg.Node{Kind: "container", Name: name}
+		switch v(3) {
+		case 0:
+			top.Kids = append(top.Kids, inner)
+		case 1:
+			inner = &sg.Node{Kind: "list", Name: name, Key: "wk", Kids: []*sg.Node{leaf("wk")}}
+			top.Kids = append(top.Kids, inner)
+		default:
+			top.Kids = append(top.Kids, &sg.Node{Kind: "choice", Name: name + "ch", Kids: []*sg.Node{{Kind: "case", Name: name + "cs", Kids: []*sg.Node{inner}}}})
+			tpath += "/m0:" + name + "ch/m0:" + name + "cs"
+		}
+		tpath += "/m0:" + name
+		top = inner
+	}
+	ref := func(s string) string {
+		if v(2) == 1 {
+			return "m0:" + s
+		}
+		return s
+	}
 	dev := &sg.Mod{Name: "mdev", Prefix: "mdev", Imports: []sg.Import{{Mod: "m0", Prefix: "m0"}}}
 	mods := []*sg.Mod{m}
 	target := leaf("t")
@@ -295,7 +324,7 @@ func buildIllegal(kind string, legal bool) []*sg.Mod {
 			l.Config = ""
 		}
 		m.Groupings = []*sg.Grouping{{Name: "g", Kids: []*sg.Node{l}}}
-		top.Kids = append(top.Kids, &sg.Node{Kind: "container", Name: "st", Config: "false", Kids: []*sg.Node{{Kind: "uses", Name: "g"}}})
+		top.Kids = append(top.Kids, &sg.Node{Kind: "container", Name: "st", Config: "false", Kids: []*sg.Node{{Kind: "uses", Name: ref("g")}}})
 	case "status-strengthened":
 		top.Status = "deprecated"
 		l := leaf("x")
@@ -314,14 +343,14 @@ func buildIllegal(kind string, legal bool) []*sg.Mod {
 		top.Kids = append(top.Kids, &sg.Node{Kind: "container", Name: "mid", Kids: []*sg.Node{l}})
 	case "current-uses-deprecated-grouping":
 		m.Groupings = []*sg.Grouping{{Name: "g", Status: "deprecated", Kids: []*sg.Node{leaf("x")}}}
-		u := &sg.Node{Kind: "uses", Name: "g"}
+		u := &sg.Node{Kind: "uses", Name: ref("g")}
 		if legal {
 			u.Status = "deprecated"
 		}
 		top.Kids = append(top.Kids, u)
 	case "current-type-obsolete-typedef", "deprecated-type-obsolete-typedef":
 		m.Typedefs = []*sg.Typedef{{Name: "t1", Type: &sg.TypeSpec{Name: "string"}, Status: "obsolete"}}
-		l := &sg.Node{Kind: "leaf", Name: "x", Type: &sg.TypeSpec{Name: "t1"}}
+		l := &sg.Node{Kind: "leaf", Name: "x", Type: &sg.TypeSpec{Name: ref("t1")}}
 		if kind == "deprecated-type-obsolete-typedef" {
 			l.Status = "deprecated"
 		}
@@ -332,13 +361,13 @@ func buildIllegal(kind string, legal bool) []*sg.Mod {
 	case "current-iffeature-deprecated-feature":
 		m.Features = []*sg.Feature{{Name: "f", Status: "deprecated"}}
 		l := leaf("x")
-		l.IfFeatures = []string{"f"}
+		l.IfFeatures = []string{ref("f")}
 		if legal {
 			l.Status = "deprecated"
 		}
 		top.Kids = append(top.Kids, l)
 	case "current-base-deprecated-identity":
-		m.Identities = []*sg.Identity{{Name: "base", Status: "deprecated"}, {Name: "derived", Base: "base"}}
+		m.Identities = []*sg.Identity{{Name: "base", Status: "deprecated"}, {Name: "derived", Base: ref("base")}}
 		if legal {
 			m.Identities[1].Status = "deprecated"
 		}
@@ -347,47 +376,56 @@ func buildIllegal(kind string, legal bool) []*sg.Mod {
 		if legal {
 			st = `must "string-length(.) > 1";`
 		}
-		dev.Deviations = []*sg.Deviation{{Target: "/m0:m0-top/m0:t", Deviates: []sg.Deviate{{Kind: "add", Stmts: []string{st}}}}}
+		dev.Deviations = []*sg.Deviation{{Target: tpath + "/m0:t", Deviates: []sg.Deviate{{Kind: "add", Stmts: []string{st}}}}}
 		mods = append(mods, dev)
 	case "deviate-delete-missing":
 		st := `must "a = 'b'";`
 		if legal {
 			st = `units "seconds";`
 		}
-		dev.Deviations = []*sg.Deviation{{Target: "/m0:m0-top/m0:t", Deviates: []sg.Deviate{{Kind: "delete", Stmts: []string{st}}}}}
+		dev.Deviations = []*sg.Deviation{{Target: tpath + "/m0:t", Deviates: []sg.Deviate{{Kind: "delete", Stmts: []string{st}}}}}
 		mods = append(mods, dev)
 	case "deviate-delete-wrong-value":
 		st := `units "hours";`
 		if legal {
 			st = `default "dv";`
 		}
-		dev.Deviations = []*sg.Deviation{{Target: "/m0:m0-top/m0:t", Deviates: []sg.Deviate{{Kind: "delete", Stmts: []string{st}}}}}
+		dev.Deviations = []*sg.Deviation{{Target: tpath + "/m0:t", Deviates: []sg.Deviate{{Kind: "delete", Stmts: []string{st}}}}}
 		mods = append(mods, dev)
 	case "deviate-replace-missing":
 		st := `mandatory true;`
 		if legal {
 			st = `units "hours";`
 		}
-		dev.Deviations = []*sg.Deviation{{Target: "/m0:m0-top/m0:t", Deviates: []sg.Deviate{{Kind: "replace", Stmts: []string{st}}}}}
+		dev.Deviations = []*sg.Deviation{{Target: tpath + "/m0:t", Deviates: []sg.Deviate{{Kind: "replace", Stmts: []string{st}}}}}
 		mods = append(mods, dev)
 	case "not-supported-plus-other":
-		ds := []sg.Deviate{{Kind: "not-supported"}, {Kind: "add", Stmts: []string{`must "a";`}}}
-		if legal {
-			ds = ds[:1]
+		others := []sg.Deviate{{Kind: "add", Stmts: []string{`must "a";`}}, {Kind: "replace", Stmts: []string{`units "hours";`}}, {Kind: "delete", Stmts: []string{`default "dv";`}}}
+		ds := []sg.Deviate{others[v(3)]}
+		if v(2) == 1 {
+			ds = append(ds, others[(v(2)+1)%3])
+			if ds[1].Kind == ds[0].Kind {
+				ds = ds[:1]
+			}
 		}
-		dev.Deviations = []*sg.Deviation{{Target: "/m0:m0-top/m0:t", Deviates: ds}}
+		pos := v(len(ds) + 1)
+		ds = append(ds[:pos], append([]sg.Deviate{{Kind: "not-supported"}}, ds[pos:]...)...)
+		if legal {
+			ds = []sg.Deviate{{Kind: "not-supported"}}
+		}
+		dev.Deviations = []*sg.Deviation{{Target: tpath + "/m0:t", Deviates: ds}}
 		mods = append(mods, dev)
 	case "deviate-add-not-allowed":
 		st := `min-elements 1;`
 		if legal {
 			st = `mandatory false;`
 		}
-		dev.Deviations = []*sg.Deviation{{Target: "/m0:m0-top/m0:t", Deviates: []sg.Deviate{{Kind: "add", Stmts: []string{st}}}}}
+		dev.Deviations = []*sg.Deviation{{Target: tpath + "/m0:t", Deviates: []sg.Deviate{{Kind: "add", Stmts: []string{st}}}}}
 		mods = append(mods, dev)
 	case "deviate-unknown-target":
-		tg := "/m0:m0-top/m0:nosuch"
+		tg := tpath + []string{"/m0:nosuch", "/m0:t/m0:t", "/mdev:t"}[v(3)]
 		if legal {
-			tg = "/m0:m0-top/m0:t"
+			tg = tpath + "/m0:t"
 		}
 		dev.Deviations = []*sg.Deviation{{Target: tg, Deviates: []sg.Deviate{{Kind: "add", Stmts: []string{`must "a";`}}}}}
 		mods = append(mods, dev)
@@ -396,29 +434,31 @@ func buildIllegal(kind string, legal bool) []*sg.Mod {
 }
 
 func checkIllegal(c IllegalCase) fw.Outcome {
-	out := fw.Outcome{NonTrivial: true, Key: c.Kind, Labels: []string{"illegal:" + c.Kind}}
-	bad := sgc.Compile(buildIllegal(c.Kind, false), sgc.Opts{Features: sgc.AllFeatures{}})
-	good := sgc.Compile(buildIllegal(c.Kind, true), sgc.Opts{Features: sgc.AllFeatures{}})
+	out := fw.Outcome{NonTrivial: true, Key: fmt.Sprintf("%s/%d", c.Kind, c.Sub), Labels: []string{"illegal:" + c.Kind}}
+	bad := sgc.Compile(buildIllegal(c.Kind, c.Sub, false), sgc.Opts{Features: sgc.AllFeatures{}})
+	good := sgc.Compile(buildIllegal(c.Kind, c.Sub, true), sgc.Opts{Features: sgc.AllFeatures{}})
 	if good.Hang || good.Panic != "" || bad.Hang || bad.Panic != "" {
 		out.Violation = fmt.Sprintf("%s: %s / %s", c.Kind, good.Describe(), bad.Describe())
 		return out
 	}
 	if !good.OK() {
-		out.Violation = fmt.Sprintf("%s: the legal twin is rejected: %s\n%s", c.Kind, good.Describe(), texts(buildIllegal(c.Kind, true)))
+		out.Violation = fmt.Sprintf("%s: the legal twin is rejected: %s\n%s", c.Kind, good.Describe(), texts(buildIllegal(c.Kind, c.Sub, true)))
 		return out
 	}
 	if bad.OK() {
-		out.Violation = fmt.Sprintf("%s: the illegal variant compiles without error\n%s", c.Kind, texts(buildIllegal(c.Kind, false)))
+		out.Violation = fmt.Sprintf("%s: the illegal variant compiles without error\n%s", c.Kind, texts(buildIllegal(c.Kind, c.Sub, false)))
 	}
 	return out
 }
 
 var illegalProp = fw.Register(&fw.Prop[IllegalCase]{
 	ID: "C14", Name: "illegal",
-	Rule: "enumerated illegal constructions, each with a legal twin that differs in one statement: config true under config false (direct, deep, through a grouping), status strengthened below a weaker parent, " +
+	Rule: "illegal constructions (kind x variation: nesting of the construction 0-2 levels deep through containers, lists and choice/case, own-prefix spelling of references, order and kind of the deviates), each with a legal twin that differs in one statement: config true under config false (direct, deep, through a grouping), status strengthened below a weaker parent, " +
 		"a current/deprecated definition referencing a more obsolete typedef / grouping / feature / identity of its own module, deviate add of an existing single-instance property, delete of a missing or differently valued " +
 		"property, replace of a missing property, not-supported next to another deviate, a property not allowed on the target, an unknown target; oracle: the twin compiles, the illegal variant is rejected",
-	Gen: func(t *rapid.T) IllegalCase { return IllegalCase{} }, Check: checkIllegal,
+	Gen: func(t *rapid.T) IllegalCase {
+		return IllegalCase{Kind: illegalKinds[rapid.IntRange(0, len(illegalKinds)-1).Draw(t, "kind")], Sub: rapid.IntRange(0, 9999).Draw(t, "sub")}
+	}, Check: checkIllegal,
 })
 
 func TestIllegalVariants(t *testing.T) {
@@ -434,6 +474,7 @@ func TestIllegalVariants(t *testing.T) {
 func TestMain(m *testing.M) { fw.Main(m) }
 
 func TestIfFeature(t *testing.T) { fw.Run(t, featProp) }
+func TestIllegal(t *testing.T)   { fw.Run(t, illegalProp) }
 func TestInherit(t *testing.T)   { fw.Run(t, inheritProp) }
 
 // ------------------------------------------------------------------- deviations
